@@ -49,6 +49,12 @@ CloseOk == chk =>
     LET obs == b IN
     QClose(obs, S, slack, Q(a, d)) = (Abs_(obs * d - a * S) <= slack * d)
 
+\* with an absolute tolerance t/8:  |obs/S - a/d| <= slack/S + t/8
+CloseTolOk == chk =>
+  \A d \in {1, 3, 7}, S \in {10, 100}, slack \in {0, 2}, t \in {0, 1, 5} :
+    QCloseTol(b, S, slack, Q(a, d), Q(t, 8)) = (8 * Abs_(b * d - a * S) <= 8 * slack * d + S * t * d)
+Pow2Ok == chk => (QEq(QPow2Inv(0), QI(1)) /\ QEq(QPow2Inv(7), Q(1, 128)) /\ QEq(QMul(QPow2Inv(33), Q(32768, 1)), Q(1, 262144)))
+
 \* square-root form on perfect squares D = r^2:  |obs - S*a/r| <= slack  <=>  |obs*r - S*a| <= slack*r
 SqrtOk == chk =>
   \A r \in {1, 2, 3, 5}, S \in {10, 100}, slack \in {0, 3} :
